@@ -252,9 +252,9 @@ def parse_obs(text):
     return res
 
 
-def run_impl(prop, mode_args, outdir, release=False):
+def run_impl(stream, mode_args, outdir, release=False):
     os.makedirs(outdir, exist_ok=True)
-    rc, out = sh([pgh_bin(release), prop] + mode_args + [outdir], timeout=3000)
+    rc, out = sh([pgh_bin(release), stream] + mode_args + [outdir], timeout=3000)
     if rc != 0:
         raise RuntimeError("harness failed: " + out[-2000:])
     return (open(os.path.join(outdir, "cases.txt")).read(),
@@ -262,11 +262,46 @@ def run_impl(prop, mode_args, outdir, release=False):
             json.load(open(os.path.join(outdir, "stats.json"))))
 
 
-def run_model(prop, outdir):
-    rc, out = sh([DRIVER, prop, os.path.join(outdir, "cases.txt"), os.path.join(outdir, "model.obs")], timeout=3000)
+def run_model(stream, outdir):
+    rc, out = sh([DRIVER, stream, os.path.join(outdir, "cases.txt"), os.path.join(outdir, "model.obs")], timeout=3000)
     if rc != 0:
         raise RuntimeError("model driver failed: " + out[-2000:])
     return open(os.path.join(outdir, "model.obs")).read()
+
+
+def split_ops(obs):
+    """observation lines of one case -> list of per-operation line groups (separator `;`);
+    streams without separators (one line per op) give one group per line"""
+    if ";" not in obs:
+        return [[l] for l in obs]
+    groups, cur = [], []
+    for l in obs:
+        if l.strip() == ";":
+            groups.append(cur)
+            cur = []
+        else:
+            cur.append(" ".join(l.split()))
+    if cur:
+        groups.append(cur)
+    return groups
+
+
+def generic_compare(impl, model):
+    """index of the first operation whose observation lines differ, or None"""
+    a, b = split_ops(impl), split_ops(model)
+    for k in range(max(len(a), len(b))):
+        x = [" ".join(l.split()) for l in a[k]] if k < len(a) else ["<missing>"]
+        y = [" ".join(l.split()) for l in b[k]] if k < len(b) else ["<missing>"]
+        if x != y:
+            return k
+    return None
+
+
+def obs_prefix(obs, k):
+    if not isinstance(k, int):
+        return obs
+    g = split_ops(obs)[:k + 1]
+    return [l for grp in g[-3:] for l in grp + [";"]]
 
 
 def case_text(header, ops):
@@ -337,7 +372,7 @@ def run_check(prop, plugin, tier, seed, replay=None):
     n_cases = 0
     selftest = None
 
-    def process(cases_txt, impl_txt, model_txt, label):
+    def process(stream, cases_txt, impl_txt, model_txt, label):
         nonlocal n_nontrivial, n_cases
         cases = parse_cases(cases_txt)
         impl = parse_obs(impl_txt)
@@ -345,64 +380,69 @@ def run_check(prop, plugin, tier, seed, replay=None):
         for cid, header, ops in cases:
             n_cases += 1
             io = impl.get(cid, [])
-            h = hashlib.sha1((header.split(" ", 2)[2] + "\n" + "\n".join(ops)).encode()).hexdigest()
+            h = hashlib.sha1((stream + " " + " ".join(header.split()[2:]) + "\n" + "\n".join(ops)).encode()).hexdigest()
             if h not in seen:
                 seen.add(h)
-                if plugin.nontrivial(header, ops, io):
+                if plugin.nontrivial(stream, header, ops, io):
                     n_nontrivial += 1
-            if len(cov["samples"]) < 3 and plugin.nontrivial(header, ops, io):
-                cov["samples"].append({"case": [header] + ops[:60], "impl_observations": io[:60]})
+            if len([x for x in cov["samples"] if x["stream"] == stream]) < 2 and plugin.nontrivial(stream, header, ops, io):
+                cov["samples"].append({"stream": stream, "case": [header] + ops[:40], "impl_observations": io[:40]})
             if model is not None:
                 mo = model.get(cid, [])
-                d = plugin.compare(header, ops, io, mo)
+                d = plugin.compare(stream, header, ops, io, mo)
                 if d is not None:
-                    disagreements.append({"label": label, "header": header, "ops": ops, "impl": io, "model": mo, "at": d})
-            f = plugin.oracle(header, ops, io)
+                    disagreements.append({"stream": stream, "label": label, "header": header, "ops": ops, "impl": io, "model": mo, "at": d})
+            f = plugin.oracle(stream, header, ops, io)
             if f is not None:
-                oracle_failures.append({"label": label, "header": header, "ops": ops, "impl": io, "failure": f})
+                oracle_failures.append({"stream": stream, "label": label, "header": header, "ops": ops, "impl": io, "failure": f})
 
     if harness_ok and dok:
         try:
+            streams = getattr(plugin, "STREAMS", None) or [(prop, plugin.QUICK_N, plugin.THOROUGH_N)]
             if replay:
                 rp = json.load(open(replay))
                 txt = rp.get("case") or ""
+                stream = rp.get("stream") or streams[0][0]
                 open(os.path.join(outdir, "replay_case.txt"), "w").write(txt)
-                c, i, st = run_impl(prop, ["replay", os.path.join(outdir, "replay_case.txt")], outdir)
-                m = run_model(prop, outdir)
-                process(c, i, m, "replay")
+                for rel in ([False, True] if release else [False]):
+                    c, i, st = run_impl(stream, ["replay", os.path.join(outdir, "replay_case.txt")], outdir, rel)
+                    m = run_model(stream, outdir)
+                    process(stream, c, i, m, "replay" + (":release" if rel else ""))
             else:
-                # ---- C corpus
+                # ---- C corpus: corpus/<prop>/<stream>-*.txt
                 cdir = os.path.join(ROOT, "corpus", prop)
                 if os.path.isdir(cdir):
                     for f in sorted(os.listdir(cdir)):
                         if not f.endswith(".txt"):
                             continue
+                        stream = f.split("-")[0]
                         for rel in ([False, True] if release else [False]):
-                            c, i, st = run_impl(prop, ["replay", os.path.join(cdir, f)], outdir, rel)
-                            m = run_model(prop, outdir)
-                            process(c, i, m, "corpus:" + f + (":release" if rel else ""))
+                            c, i, st = run_impl(stream, ["replay", os.path.join(cdir, f)], outdir, rel)
+                            m = run_model(stream, outdir)
+                            process(stream, c, i, m, "corpus:" + f + (":release" if rel else ""))
                 # ---- D generated
-                n = plugin.QUICK_N if tier == "quick" else plugin.THOROUGH_N
                 shard = getattr(plugin, "SHARD", 5000)
-                done = 0
-                k = 0
-                while done < n:
-                    cnt = min(shard, n - done)
-                    for rel in ([False, True] if release else [False]):
-                        c, i, st = run_impl(prop, ["gen", str(seed + 7919 * k), str(cnt)], outdir, rel)
-                        m = run_model(prop, outdir)
-                        process(c, i, m, "gen:seed=%d:n=%d%s" % (seed + 7919 * k, cnt, ":release" if rel else ""))
-                        for kk, v in st.items():
-                            cov["histograms"][kk] = cov["histograms"].get(kk, 0) + v
-                        # self-test on the first shard: a planted wrong observation must be flagged
-                        if selftest is None:
-                            selftest = plugin_selftest(plugin, c, i, m)
-                    done += cnt
-                    k += 1
-                # ---- E extra oracle-only stream (thorough)
-                if tier == "thorough" and getattr(plugin, "ORACLE_ONLY_N", 0):
-                    c, i, st = run_impl(prop, ["gen", str(seed + 104729), str(plugin.ORACLE_ONLY_N)], outdir)
-                    process(c, i, None, "oracle-only")
+                for (stream, qn, tn) in streams:
+                    n = qn if tier == "quick" else tn
+                    done = 0
+                    k = 0
+                    while done < n:
+                        cnt = min(shard, n - done)
+                        for rel in ([False, True] if release else [False]):
+                            c, i, st = run_impl(stream, ["gen", str(seed + 7919 * k), str(cnt)], outdir, rel)
+                            m = run_model(stream, outdir)
+                            process(stream, c, i, m, "gen:%s:seed=%d:n=%d%s" % (stream, seed + 7919 * k, cnt, ":release" if rel else ""))
+                            for kk, v in st.items():
+                                cov["histograms"][stream + "." + kk] = cov["histograms"].get(stream + "." + kk, 0) + v
+                            # self-test: a planted wrong observation must be flagged
+                            if selftest is None or (selftest.get("skipped") and not rel):
+                                selftest = plugin_selftest(plugin, stream, c, i, m)
+                        done += cnt
+                        k += 1
+                    # ---- E extra oracle-only stream (thorough)
+                    if tier == "thorough" and getattr(plugin, "ORACLE_ONLY_N", 0):
+                        c, i, st = run_impl(stream, ["gen", str(seed + 104729), str(plugin.ORACLE_ONLY_N)], outdir)
+                        process(stream, c, i, None, "oracle-only:" + stream)
         except RuntimeError as e:
             path = write_replay(prop, "%s-run-failure.json" % prop,
                                 {"property": prop, "kind": "correspondence-cannot-run", "detail": str(e)})
@@ -426,9 +466,9 @@ def run_check(prop, plugin, tier, seed, replay=None):
         if ("oracle", cls) in reported:
             continue
         reported.add(("oracle", cls))
-        ops = plugin.shrink(f["header"], f["ops"], f["impl"], f["failure"]) if hasattr(plugin, "shrink") else f["ops"]
+        ops = plugin.shrink(f["stream"], f["header"], f["ops"], f["impl"], f["failure"]) if hasattr(plugin, "shrink") else f["ops"]
         path = write_replay(prop, "%s-%d-oracle-%s.json" % (prop, seed, re.sub(r"\W+", "_", cls)[:40]),
-                            {"property": prop, "kind": "property-fails-on-implementation", "seed": seed,
+                            {"property": prop, "kind": "property-fails-on-implementation", "seed": seed, "stream": f["stream"],
                              "where": f["label"], "failure": f["failure"],
                              "case": case_text(f["header"], ops), "impl_observations": f["impl"]})
         violations.append((path, False))
@@ -440,14 +480,14 @@ def run_check(prop, plugin, tier, seed, replay=None):
             d = pure[0]
             k = d["at"]
             path = write_replay(prop, "%s-%d-correspondence.json" % (prop, seed),
-                                {"property": prop, "kind": "correspondence-broken", "seed": seed,
+                                {"property": prop, "kind": "correspondence-broken", "seed": seed, "stream": d["stream"],
                                  "detail": "implementation and Coq model disagree; the oracle found no input on which "
                                            "the property itself fails (%d cases searched)" % n_cases,
-                                 "correspondence": "pgh %s vs extracted %s" % (prop, ", ".join(plugin.MODEL_FILES)),
+                                 "correspondence": "pgh %s vs extracted %s" % (d["stream"], ", ".join(plugin.MODEL_FILES)),
                                  "where": d["label"], "first_difference_at_op": k,
                                  "case": case_text(d["header"], d["ops"][:k + 1] if isinstance(k, int) else d["ops"]),
-                                 "impl_observations": d["impl"][:k + 1] if isinstance(k, int) else d["impl"],
-                                 "model_observations": d["model"][:k + 1] if isinstance(k, int) else d["model"],
+                                 "impl_observations": obs_prefix(d["impl"], k),
+                                 "model_observations": obs_prefix(d["model"], k),
                                  "disagreeing_cases": len(pure)})
             violations.append((path, True))
         elif pure:
@@ -511,7 +551,7 @@ def run_check(prop, plugin, tier, seed, replay=None):
     return 1 if violations else 0
 
 
-def plugin_selftest(plugin, cases_txt, impl_txt, model_txt):
+def plugin_selftest(plugin, stream, cases_txt, impl_txt, model_txt):
     """Plant one wrong implementation observation and require both the diff and the oracle
     machinery to be able to see it (the diff must; the oracle should when the plugin says so)."""
     cases = parse_cases(cases_txt)
@@ -519,11 +559,11 @@ def plugin_selftest(plugin, cases_txt, impl_txt, model_txt):
     model = parse_obs(model_txt)
     for cid, header, ops in cases:
         io = impl.get(cid, [])
-        planted = plugin.plant(header, ops, io) if hasattr(plugin, "plant") else None
+        planted = plugin.plant(stream, header, ops, io) if hasattr(plugin, "plant") else None
         if planted is None:
             continue
-        d = plugin.compare(header, ops, planted, model.get(cid, []))
-        o = plugin.oracle(header, ops, planted)
+        d = plugin.compare(stream, header, ops, planted, model.get(cid, []))
+        o = plugin.oracle(stream, header, ops, planted)
         ok = d is not None and (o is not None or not getattr(plugin, "PLANT_ORACLE", True))
-        return {"ok": ok, "diff_saw_it": d is not None, "oracle_saw_it": o is not None, "case": cid}
+        return {"ok": ok, "diff_saw_it": d is not None, "oracle_saw_it": o is not None, "case": cid, "stream": stream}
     return {"ok": True, "skipped": "no plantable case"}
